@@ -428,6 +428,28 @@ pub struct CamelPascal {
 }
 proj_struct!(CamelPascal { Name, Id, OwnerName, plain });
 
+/// variants with a field keyed like the variant's own effective name (tag value vs member keys)
+#[derive(Deserr, Debug)]
+#[deserr(tag = "type", rename_all = lowercase, deny_unknown_fields)]
+pub enum VariantNamedLikeField {
+    Text {
+        text: String,
+    },
+    Image {
+        url: String,
+        #[deserr(default)]
+        image: u8,
+    },
+    #[deserr(rename = "range")]
+    Span {
+        #[deserr(rename = "range")]
+        from_to: u8,
+        plain: Option<u8>,
+    },
+    Other,
+}
+proj_enum!(VariantNamedLikeField { Text { text }, Image { url, image }, Span { from_to, plain }, Other });
+
 /// raw identifiers as variant names: without any rename, under rename_all, with an explicit rename
 #[derive(Deserr, Debug)]
 #[deserr(tag = "t")]
@@ -1148,6 +1170,19 @@ pub fn defs() -> Defs {
     d.add(Def::Conv(ConvDef { name: "CTrySame".into(), inter: Ty::Str, conv: Conv::TryFrom("try_same_err".into()), validate: None }));
     d.add(st(sdef("PortInner", vec![f("port", Ty::Str).try_from("try_port")])));
     d.add(st(sdef("PortS", vec![f("port", Ty::Str).try_from("try_port"), f("name", Ty::Str), f("backups", vec(named("PortInner"))).default(Proj::Seq(vec![]))])));
+    d.add(Def::Enum(EnumDef {
+        deny: Deny::Default,
+        ..edef(
+            "VariantNamedLikeField",
+            "type",
+            vec![
+                vd("Text", "text", Some(vec![f("text", Ty::Str)])),
+                vd("Image", "image", Some(vec![f("url", Ty::Str), f("image", u(8)).default(pu(0))])),
+                vd("Span", "range", Some(vec![f("from_to", u(8)).key("range"), f("plain", opt(u(8)))])),
+                vd("Other", "other", None),
+            ],
+        )
+    }));
     d.add(Def::Enum(edef(
         "VariantRuleMix",
         "t",
@@ -1483,6 +1518,7 @@ pub fn registry() -> Registry {
     r.all::<BTreeMap<String, ()>>("BTreeMap<String,()>", map(KeyTy::Str, Ty::Unit), CT);
     r.all::<Vec<PhantomData<u8>>>("Vec<PhantomData<u8>>", vec(Ty::Phantom), CT);
     r.all::<Option<Option<()>>>("Option<Option<()>>", opt(opt(Ty::Unit)), CT);
+    r.all::<VariantNamedLikeField>("VariantNamedLikeField", named("VariantNamedLikeField"), &["derive", "enum", "rename", "deny", "default"]);
     r.all::<VariantRuleMix>("VariantRuleMix", named("VariantRuleMix"), &["derive", "enum", "rename"]);
     r.all::<DupNames>("DupNames", named("DupNames"), &["derive", "unit-enum", "rename"]);
     r.all::<CamelPascal>("CamelPascal", named("CamelPascal"), &["derive", "rename", "deny"]);
